@@ -21,7 +21,8 @@ import optree
 from optsim import gen
 from optsim import universe as U
 from optsim.same import same
-from optsim.scenario import GLOBAL, Registry, clone, py_children, walk
+from optsim.scenario import GLOBAL, OPS, OP_NAMES, Registry, Scn, clone, py_children, walk
+from optsim.scenario import outcome as run_outcome
 from optsim.tape import Tape, derive_seed
 
 PROPERTY = 'C14'
@@ -45,7 +46,7 @@ REAL_VS_STUB = {
     'stub_or_simulator_owned': ['user flatten/unflatten callables (universe.Funcs)', 'GC timing (disabled; injected as a step)',
                                 'history of mutations / registry changes (choice tape)'],
 }
-EXPECTED_PROBES = ('cycle-reclaimed:custom-metadata-childless', 'cycle-reclaimed:custom-entries', 'cycle-reclaimed:dict-key', 'cycle-reclaimed:defaultdict-factory', 'cycle-reclaimed:namedtuple-class', 'step:create', 'step:mutate_source', 'step:mutate_handout', 'step:operand', 'step:registry', 'step:drop_tree',
+EXPECTED_PROBES = ('step:catalog', 'cycle-reclaimed:custom-metadata-childless', 'cycle-reclaimed:custom-entries', 'cycle-reclaimed:dict-key', 'cycle-reclaimed:defaultdict-factory', 'cycle-reclaimed:namedtuple-class', 'step:create', 'step:mutate_source', 'step:mutate_handout', 'step:operand', 'step:registry', 'step:drop_tree',
                    'step:gc', 'step:cycle', 'operand:failed', 'operand:ok', 'leaf-release-checked', 'cycle-reclaimed')
 
 ROUTES = ('flatten', 'structure', 'with_path', 'with_accessor', 'child', 'children', 'one_level', 'transform', 'compose',
@@ -160,8 +161,8 @@ def run_job(job, io):
     steps = 0
     for _ in range(n_steps):
         kind = tape.weighted([(5, 'create'), (4, 'mutate_source'), (4, 'mutate_handout'), (5, 'operand'), (2, 'registry'),
-                              (1, 'drop_tree'), (2, 'gc'), (1, 'cycle')], 'step')
-        if not pool and kind != 'cycle':
+                              (1, 'drop_tree'), (2, 'gc'), (1, 'cycle'), (2, 'catalog')], 'step')
+        if not pool and kind not in ('cycle', 'catalog'):
             kind = 'create'
         steps += 1
         probes['step:' + kind] += 1
@@ -411,6 +412,39 @@ def run_job(job, io):
             elif kind == 'gc':
                 site = 'gc'
                 gc.collect()
+            elif kind == 'catalog':
+                # any public operation (succeeding or failing) must leave its input trees, leaf lists and operand
+                # treespecs untouched: run a few operations of the shared catalogue on a fresh scenario
+                scn = Scn(tape, ns='cat', budget=2 + tape.draw(14, 'cat-budget'))
+                try:
+                    snaps = [clone(scn.tree), clone(scn.tree2), clone(scn.prefix), clone(scn.other)]
+                    leaves_before = list(scn.leaves)
+                    specs = (scn.spec, scn.prefix_spec, scn.other_spec)
+                    obs_before = [observe(sp_, [U.Leaf(30000 + i) for i in range(sp_.num_leaves)]) for sp_ in specs]
+                    for _ in range(1 + tape.draw(4, 'cat-n')):
+                        opn = tape.choice(OP_NAMES, 'cat-op')
+                        detail = opn
+                        site = 'catalog:' + opn
+                        io.progress({'site': site, 'tape': tape.values})
+                        got = run_outcome(OPS[opn], scn)
+                        probes['operand:failed' if got[0] == 'exc' else 'operand:ok'] += 1
+                        keys.add('catalog|%s|%s' % (opn, got[0]))
+                        del got
+                        for tr, sn, nm in zip((scn.tree, scn.tree2, scn.prefix, scn.other), snaps, ('tree', 'tree2', 'prefix', 'other')):
+                            d = same(sn, tr)
+                            if d:
+                                viol('input-mutated', site, 'operation %s changed its input %s: %s' % (opn, nm, d))
+                        if len(scn.leaves) != len(leaves_before) or any(a is not b for a, b in zip(scn.leaves, leaves_before)):
+                            viol('input-mutated', site, 'operation %s changed the leaves list it was given' % opn)
+                        for sp_, ob in zip(specs, obs_before):
+                            d = diff_obs(ob, observe(sp_, [U.Leaf(30000 + i) for i in range(sp_.num_leaves)]))
+                            if d:
+                                viol('spec-changed', site, 'operation %s changed an operand treespec: %s' % (opn, d))
+                        if violations:
+                            break
+                finally:
+                    scn.close()
+                    scn = snaps = specs = obs_before = leaves_before = None
             elif kind == 'cycle':
                 route = tape.choice(CYCLE_ROUTES, 'cycle-route')
                 nest = tape.draw(4, 'cycle-nest')
